@@ -115,6 +115,10 @@ def step (s : St) (toks : List String) : St × String :=
     match hexToBytes b, now.toNat?, parseFaults fl with
     | some b, some now, some fl => apply s (.write b) now fl
     | _, _, _ => (s, "bad-op")
+  | ["WRAW", b, now, fl] =>
+    match hexToBytes b, now.toNat?, parseFaults fl with
+    | some b, some now, some fl => apply s (.write b) now fl
+    | _, _, _ => (s, "bad-op")
   | ["ROT", now, fl] =>
     match now.toNat?, parseFaults fl with
     | some now, some fl => apply s .rotate now fl
